@@ -325,10 +325,23 @@ type hEv struct {
 	hasLs, hasStat bool
 }
 
+// i32 keeps a number inside what TLC can read (32-bit integers); anything beyond stays "huge"
+func i32(x int64) int64 {
+	const lim = 1<<31 - 1
+	if x > lim {
+		return lim
+	}
+	if x < -lim {
+		return -lim
+	}
+	return x
+}
+
 func (f *File) ev(e hEv) {
 	if e.ls == "" {
 		e.ls = "{}"
 	}
+	e.n, e.off, e.wh, e.cnt, e.ret = i32(e.n), i32(e.off), i32(e.wh), i32(e.cnt), i32(e.ret)
 	f.t.end(fmt.Sprintf(`[k |-> "h", h |-> %d, op |-> %q, n |-> %d, off |-> %d, wh |-> %d, bs |-> %s, e |-> %q, cnt |-> %d, rb |-> %s, ret |-> %d, sk |-> %q, perm |-> %d, ls |-> %s]`,
 		f.id, e.op, e.n, e.off, e.wh, bytesTLA(e.bs), hClass(e.err), e.cnt, bytesTLA(e.rb), e.ret, e.sk, e.perm, e.ls))
 }
